@@ -97,7 +97,7 @@ DEADLINES = {'controlled': 20.0, 'serial': 20.0, 'fork': 60.0, 'spawn': 150.0}
 
 def execute_case(spec: dict, *, chooser: Optional[Chooser] = None, gated: bool = False, deadline_s: Optional[float] = None,
                  keep_dir: bool = False, pre_hook=None, storage_wrapper=None, around_run=None, verify_cache: bool = False,
-                 rest_hook=None) -> Obs:
+                 rest_hook=None, idle_rounds: int = 2) -> Obs:
     obs = Obs()
     d = tempfile.mkdtemp(prefix='case-', dir=scratch_root())
     obs_dir = os.path.join(d, 'obs')
@@ -132,7 +132,7 @@ def execute_case(spec: dict, *, chooser: Optional[Chooser] = None, gated: bool =
         if deadline_s is None:
             deadline_s = DEADLINES.get(backend_kind, 60.0)
         ctl = Control(chooser or Chooser(spec.get('schedule', [])), gated=gated, obs_dir=obs_dir,
-                      deadline=time.monotonic() + deadline_s, rest_hook=rest_hook)
+                      deadline=time.monotonic() + deadline_s, rest_hook=rest_hook, idle_rounds=idle_rounds)
         if backend_kind == 'controlled':
             backend = ControlledBackend(ctl)
         else:
